@@ -530,12 +530,15 @@ class Folder:
             return self._eval(lam.body, ee)
         raise AnalysisError(f"constfold: call of {type(tgt).__name__}")
 
-    def call_function(self, fn, args, kw=None):
+    def call_function(self, fn, args, kw=None, self_value=None):
         kw = kw or {}
-        if fn.cls is not None and fn.kind == "method":
-            raise AnalysisError(f"constfold: instance method call {fn.key}")
         local = {}
         params = list(fn.params)
+        if fn.cls is not None and fn.kind == "method":
+            if self_value is None:
+                raise AnalysisError(f"constfold: instance method call {fn.key}")
+            local[params[0]] = self_value
+            params = params[1:]
         if fn.kind == "classmethod":
             local[params[0]] = ClassRef(fn.cls)
             params = params[1:]
